@@ -204,7 +204,7 @@ Qed.
 (* the bottom level for a key above the last data key: last real segment or extra segment *)
 Theorem level_pos_beyond c eps keys ldk css g new T k J :
   keys <> [] -> sortedb keys = true -> nowrap (c_kt c) keys -> zlen keys < 2 ^ 32 -> 1 <= eps ->
-  concat g = fed_spec (c_kt c) keys -> Lv c eps (EvalOK c k) css g new ->
+  concat g = fed_spec (c_kt c) keys -> Lv c eps (EvalOKc (zlen keys + eps) c k) css g new ->
   tail_shape c ldk (zlen keys) (last new dseg) T ->
   wrapK (c_kt c) (ldk + 1) = ldk + 1 -> last keys 0 = ldk ->
   (extra_test c (zlen keys) (last new dseg) = true ->
@@ -317,7 +317,7 @@ Section Beyond.
   Let ldk := last_z data.
 
   Theorem search_beyond_pos q : c_epsrec c <> 0 -> last_z data < q -> q < sentinel c ->
-    float_ok c data (Z.max (hd 0 data) q) ->
+    float_ok_cap c data (Z.max (hd 0 data) q) ->
     exists pos tr,
       search_tr c ix q = Ok (mkApprox pos (PGM_SUB_EPS pos (c_eps c)) (PGM_ADD_EPS pos (c_eps c) n), tr) /\
       n - c_eps c - 2 <= pos <= n + c_eps c /\ 0 <= pos.
@@ -415,16 +415,16 @@ Section Beyond.
 
   (* C02 for every query below the sentinel, whenever the routing uses the linear scan
      (EpsilonRecursive <= linear_search_threshold), and always when EpsilonRecursive = 0 *)
-  Theorem C02_search_scan q : q < sentinel c -> float_ok c data (Z.max (hd 0 data) q) ->
+  Theorem C02_search_scan_cap q : q < sentinel c -> float_ok_cap c data (Z.max (hd 0 data) q) ->
     exists a, search c ix q = Ok a /\
       0 <= a_lo a /\ a_lo a <= lb data q /\ lb data q <= a_hi a /\ a_hi a <= zlen data /\
       a_hi a - a_lo a <= 2 * c_eps c + 2 /\ a_lo a <= a_pos a.
   Proof.
     intros Hq Hfl. destruct (Z_le_gt_dec q (last_z data)) as [Hle|Hgt].
-    { exact (C02_search_partial c data ix Hbits Heps Hrec0 Hrec64 Hpar Hne Hs Hkt Hlast Hn32 Hn64 Hbuild Hsegs32 q Hle Hfl). }
+    { exact (C02_search_partial_cap c data ix Hbits Heps Hrec0 Hrec64 Hpar Hne Hs Hkt Hlast Hn32 Hn64 Hbuild Hsegs32 q Hle Hfl). }
     destruct (Z.eq_dec (c_epsrec c) 0) as [E0|E0].
     { destruct Hfl as [Hf0 _].
-      exact (C02_search0 c data ix Hbits E0 Heps Hpar Hne Hs Hkt Hlast Hn32 Hn64 Hbuild q Hq Hf0). }
+      exact (C02_search0_cap c data ix Hbits E0 Heps Hpar Hne Hs Hkt Hlast Hn32 Hn64 Hbuild q Hq Hf0). }
     destruct (search_beyond_pos q E0 ltac:(lia) Hq Hfl) as (pos & tr & Es & Hb & Hp0).
     eexists. split; [unfold search; rewrite Es; reflexivity|]. cbn [bind fst a_lo a_hi a_pos].
     rewrite (lb_beyond q ltac:(lia)). pose proof (zlen_ge0 data) as Hn0. fold n in Hn0.
@@ -432,12 +432,23 @@ Section Beyond.
     cbn zeta in Hwin. fold n. lia.
   Qed.
 
-  Corollary C02_pred_search_scan q : q < sentinel c -> float_ok c data (Z.max (hd 0 data) q) ->
+  Corollary C02_pred_search_scan_cap q : q < sentinel c -> float_ok_cap c data (Z.max (hd 0 data) q) ->
     exists a, search c ix q = Ok a /\ C02_pred_b data q a = true.
   Proof.
-    intros Hq Hfl. destruct (C02_search_scan q Hq Hfl) as (a & Es & H).
+    intros Hq Hfl. destruct (C02_search_scan_cap q Hq Hfl) as (a & Es & H).
     exists a. split; [exact Es|]. apply C02_pred_b_of_bounds; [exact Hs | lia..].
   Qed.
+
+  (* the same under the stronger hypothesis float_ok (eval_ok without the cap disjunct) *)
+  Theorem C02_search_scan q : q < sentinel c -> float_ok c data (Z.max (hd 0 data) q) ->
+    exists a, search c ix q = Ok a /\
+      0 <= a_lo a /\ a_lo a <= lb data q /\ lb data q <= a_hi a /\ a_hi a <= zlen data /\
+      a_hi a - a_lo a <= 2 * c_eps c + 2 /\ a_lo a <= a_pos a.
+  Proof. intros Hq Hfl. exact (C02_search_scan_cap q Hq (float_ok_cap_of _ _ _ Hfl)). Qed.
+
+  Corollary C02_pred_search_scan q : q < sentinel c -> float_ok c data (Z.max (hd 0 data) q) ->
+    exists a, search c ix q = Ok a /\ C02_pred_b data q a = true.
+  Proof. intros Hq Hfl. exact (C02_pred_search_scan_cap q Hq (float_ok_cap_of _ _ _ Hfl)). Qed.
 End Beyond.
 
 Print Assumptions C02_search_scan.
